@@ -11,7 +11,7 @@ Record gstyle := mkGstyle { gs_just : option N;      (* *Justification *)
                             gs_pos : option Z;       (* *STLPosition: its VerticalPosition *)
                             gs_it : option bool; gs_un : option bool; gs_bx : option bool }.
 Record gline_item := mkGlineItem { gl_text : str; gl_style : option gstyle }.
-Record gitem := mkGitem { gi_st : Z; gi_en : Z; gi_style : option gstyle; gi_lines : list (list gline_item) }.
+Record gsitem := mkGsitem { gsi_st : Z; gsi_en : Z; gsi_style : option gstyle; gsi_lines : list (list gline_item) }.
 
 (* stlJustificationCodeFromStyle, 723-739: "if sa == nil || sa.STLJustification == nil { return left }; switch *sa.STLJustification" *)
 Definition just_c (sa : option gstyle) : res (option N) :=
@@ -38,14 +38,17 @@ Fixpoint map_c {A B} (f : A -> res B) (l : list A) : res (list B) :=
   | [] => Ok []
   | x :: r => do y <- f x; do ys <- map_c f r; Ok (y :: ys)
   end.
-(* newTTIBlock, 696-721: i.InlineStyle at 702 and 707; the Go cue list holds *Item: a nil element is dereferenced there
-   without a guard (see the unguarded example) *)
-Definition item_c (p : option gitem) : res witem :=
-  do i <- deref p 702;
-  do j <- just_c (gi_style i); do v <- vp_c (gi_style i);
-  do ls <- map_c (map_c run_c) (gi_lines i);
-  Ok (mkWitem (gi_st i) (gi_en i) j v ls).
-Definition items_c (l : list (option gitem)) : res (list witem) := map_c item_c l.
+(* newTTIBlock, 696-721: i.InlineStyle at 702 and 707, through i *Item.  WriteToSTL (943) first replaces the cue list by
+   nonNilItems(s.Items) (subtitles.go): the loop, newGSIBlock (TNB / TNS, TCF from Items[0]) and the "nothing to write"
+   test all see the list WITHOUT its nil elements, so i is never nil at 702.  [items_c] is that: Kit.Chk.somes, then the
+   guarded flattening of each element; [items_unguarded_c] is the code before that filter existed (a guard dropped). *)
+Definition item_c (i : gsitem) : res witem :=
+  do j <- just_c (gsi_style i); do v <- vp_c (gsi_style i);
+  do ls <- map_c (map_c run_c) (gsi_lines i);
+  Ok (mkWitem (gsi_st i) (gsi_en i) j v ls).
+Definition items_c (l : list (option gsitem)) : res (list witem) := map_c item_c (somes l).
+Definition item_unguarded_c (p : option gsitem) : res witem := do i <- deref p 702; item_c i.
+Definition items_unguarded_c (l : list (option gsitem)) : res (list witem) := map_c item_unguarded_c l.
 
 (* the unchecked flattening (what the harness's projection does) *)
 Definition run_flat (li : gline_item) : wrun :=
@@ -54,6 +57,12 @@ Definition run_flat (li : gline_item) : wrun :=
                      (match gs_bx s with Some b => b | None => false end)
   | None => mkWrun (gl_text li) false false false
   end.
-Definition item_flat (i : gitem) : witem :=
-  mkWitem (gi_st i) (gi_en i) (match gi_style i with Some s => gs_just s | None => None end)
-          (match gi_style i with Some s => gs_pos s | None => None end) (map (map run_flat) (gi_lines i)).
+Definition item_flat (i : gsitem) : witem :=
+  mkWitem (gsi_st i) (gsi_en i) (match gsi_style i with Some s => gs_just s | None => None end)
+          (match gsi_style i with Some s => gs_pos s | None => None end) (map (map run_flat) (gsi_lines i)).
+
+(* WriteToSTL on the Go-shaped cue list ([]*Item with nil elements and nil-able style pointers): the checked writer of
+   Model/StlC.v on the flattened list of the non-nil elements *)
+From Astisub Require Import Model.StlC.
+Definition write_stl_items_c (now : str) (md : option wmeta) (l : list (option gsitem)) : res str :=
+  do items <- items_c l; write_stl_c now md items.
